@@ -57,6 +57,13 @@ Section AMapFacts.
     - apply keqb_spec in E. subst. split; [discriminate | intros H; exfalso; apply H; left; reflexivity].
     - apply keqb_false in E. rewrite IH. split; [intros H [H1|H1]; [congruence | contradiction] | tauto].
   Qed.
+  Lemma alookup_not_none_in k (m : list (K * V)) : alookup keqb k m <> None -> In k (map fst m).
+  Proof.
+    induction m as [|[k' v'] m IH]; simpl; [congruence|].
+    destruct (keqb k k') eqn:E; intros H.
+    - apply keqb_spec in E. left. congruence.
+    - right. apply IH. exact H.
+  Qed.
   Lemma alookup_some_in k (v : V) m : alookup keqb k m = Some v -> In (k, v) m.
   Proof.
     induction m as [|[k' v'] m IH]; simpl; [discriminate|].
